@@ -114,7 +114,8 @@ def qrw(R, prog):
     for nid, idx, ev in G.events():
         if cas(ev):
             a0 = f.x(f.skip(ev.e['args'][0]))
-            init = f.value_init(a0['decl']) if a0 is not None and a0['k'] == 'ref' else None
+            f.aliases()
+            init = f.inits.get(a0['decl']) if a0 is not None and a0['k'] == 'ref' else None   # the value the CAS expects on its first (only) attempt
             expv = f.const(init) if init is not None else None
             desv = f.const(ev.e['args'][1])
             key = P + '.K6:photon::qrwlock::__trylock:cas-0-to-writelocked'
